@@ -115,6 +115,110 @@ def run_streams(ctx, lines, gdmodel, harness):
     return impl, model, spec, san, pi.returncode
 
 
+GD = {'i8': 'INT8', 'u8': 'UINT8', 'i16': 'INT16', 'u16': 'UINT16', 'i32': 'INT32', 'u32': 'UINT32',
+      'i64': 'INT64', 'u64': 'UINT64', 'f32': 'FLOAT32', 'f64': 'FLOAT64', 'c64': 'COMPLEX64', 'c128': 'COMPLEX128'}
+
+
+def le_bytes(ty, re, im):
+    w = WIDTH[ty] // 8
+    b = re.to_bytes(w, 'little')
+    if ty[0] == 'c':
+        b += im.to_bytes(w, 'little')
+    return b
+
+
+def glue_stream(ctx, gdmodel):
+    """The callers of the conversion: gd_getdata on RAW fields of every native
+    type (incl. complex) read in every return type, through a PHASE, and
+    gd_get_carray on CARRAYs.  Expected values come from specConv (convspec)."""
+    from vlib import streams
+    rng = ctx.rng
+    harness = C.build_harness("gdh", ["gdh.c"])
+    fmt = ["/VERSION 10", "/ENDIAN little", "/ENCODING none"]
+    L = ["reset"]
+    srcvals = {}
+    for s in TYPES:
+        vs = boundary_values(s, rng, 10)
+        rng.shuffle(vs)
+        vs = vs[:60]
+        if s[0] == 'c':
+            ims = boundary_values(s, rng, 2)
+            pairs = [(v, ims[rng.randrange(len(ims))]) for v in vs]
+        else:
+            pairs = [(v, 0) for v in vs]
+        srcvals[s] = pairs
+        fmt.append("r_%s RAW %s 1" % (s, GD[s]))
+        fmt.append("p_%s PHASE r_%s 0" % (s, s))
+        L.append("file r_%s %s" % (s, b"".join(le_bytes(s, re, im) for re, im in pairs).hex()))
+    # CARRAYs: storage types are INT64 / UINT64 / FLOAT64 / COMPLEX128
+    carr = {'i64': [-1, -129, 127, 255, 65535, -32769, 2147483648, -2147483649, 4294967295, 0, 9223372036854775807, -9223372036854775808, 16777217, 9007199254740993],
+            'u64': [0, 1, 255, 256, 65536, 4294967296, 18446744073709551615, 9223372036854775808, 16777217, 9007199254740993]}
+    for t, vals in carr.items():
+        fmt.append("ca_%s CARRAY %s %s" % (t, GD[t], " ".join(str(v) for v in vals)))
+    fvals = [0.5, -0.5, 255.99999999, -128.99999999, 32767.9999, 65535.5, 16777217.0, 2147483647.0, 4294967295.0, -2147483648.0, 3e9, 1e10, 0.0, 127.0, -1.0]
+    fmt.append("ca_f64 CARRAY FLOAT64 " + " ".join(repr(v) for v in fvals))
+    fmt.append("ca_c128 CARRAY COMPLEX128 " + " ".join("%r;%r" % (v, 3.0) for v in fvals))
+    L.insert(1, "file format " + ("\n".join(fmt) + "\n").encode().hex())
+    L.append("open rdonly")
+    gets = []
+    for s in TYPES:
+        for d in TYPES:
+            for code in ("r_%s" % s, "p_%s.r" % s if s[0] == 'c' else "p_%s" % s):
+                L.append("get %s 0 0 %d 0 %s" % (code, len(srcvals[s]), d))
+                gets.append((len(L) - 1, s, d, srcvals[s], code))
+    for t in ('i64', 'u64', 'f64', 'c128'):
+        for d in TYPES:
+            L.append("getcarray ca_%s %s" % (t, d))
+            if t in carr:
+                vals = [(v % 2 ** 64, 0) for v in carr[t]]
+            elif t == 'f64':
+                vals = [(f64bits(v), 0) for v in fvals]
+            else:
+                vals = [(f64bits(v), f64bits(3.0)) for v in fvals]
+            gets.append((len(L) - 1, t, d, vals, "ca_" + t))
+    out, rc, err = streams.run_gdh(harness, L, "c06glue")
+    # expected values from specConv
+    q = []
+    for (_, s, d, vals, code) in gets:
+        for (re, im) in vals:
+            if code.endswith(".r"):   # real part of a complex field: a real value of the component type
+                q.append("convspec %s %s %x 0" % ('f32' if s == 'c64' else 'f64', d, re))
+            else:
+                q.append("convspec %s %s %x %x" % (s, d, re, im))
+    sp = C.run([gdmodel], inp=("\n".join(q) + "\n").encode(), timeout=600).stdout.decode().split("\n")
+    k = 0
+    nglue = 0
+    bad = {}
+    if rc != 0:
+        ctx.fail("input", "gdh aborted in the C06 glue stream: " + err[-300:], {"script": L, "stderr": err[-2000:]},
+                 sig={"pair": "glue-abort"})
+    for (li, s, d, vals, code) in gets:
+        line = out[li] if li < len(out) else ""
+        body = streams.strip_rl(line)[0]
+        got = body.split(" d=")[1].split(",") if " d=" in body else []
+        for j, (re, im) in enumerate(vals):
+            want = sp[k].replace(" ", ";")
+            k += 1
+            if want == "undef" or "undef" in want:
+                continue
+            nglue += 1
+            g = got[j] if j < len(got) else "<missing>"
+            if d[0] == 'c' and ";" not in want:
+                want = want
+            if g != want:
+                bad.setdefault((s, d, code.split("_")[0].split(".")[0]), []).append((L[li], j, "%x;%x" % (re, im), want, g))
+    ctx.evaluations += nglue
+    ctx.coverage["glue_evaluations"] = nglue
+    for key, lst in sorted(bad.items()):
+        op, j, src, want, got = lst[0]
+        ctx.fail("input", "%s: element %d (source %s as %s) read as %s gives %s, the property requires %s (%d such)" % (
+            op, j, src, key[0], key[1], got, want, len(lst)),
+            {"script": [x for x in L if not x.startswith("get")] + [op], "expected": want, "observed": got,
+             "element": j}, sig={"pair": "%s %s" % (key[0], key[1]), "path": "glue"})
+        if len([1 for f in ctx.failures]) > 6:
+            break
+
+
 def run(ctx):
     ok, lr, infos = F.lean_obligations(
         ctx, ["GdModel.Props.C06"],
@@ -181,6 +285,7 @@ def run(ctx):
         ctx.fail("correspondence", "model of table entry %s->%s differs from the code on %s (model %s, code %s) but the property holds there" % (
             s, d, line, want, got), {"correspondence": "gen_conv", "script": [line], "model": want, "observed": got},
             has_input=False)
+    glue_stream(ctx, gdmodel)
     if not ok and not mism_prop:
         names = [o[0] for o in ctx.obligations if not o[1]]
         ctx.fail("obligation", "Lean obligations no longer check: " + "; ".join(names)[:400] + " :: " + lr.errors[-600:],
